@@ -414,10 +414,10 @@ def u1_use(ctx):
 
 
 def run(ctx):
-    d1_call(ctx)
-    s1_init(ctx)
-    s2_times_in_chunks(ctx)
-    u1_use(ctx)
+    ctx.part('C17.D1', d1_call)
+    ctx.part('C17.S1', s1_init)
+    ctx.part('C17.S2', s2_times_in_chunks)
+    ctx.part('C17.U1', u1_use)
 
 
 LEVEL_TEXT = ('Static path walk of SpikeSelector.__call__ over all flag combinations and test outcomes: the provenance of every per-cluster '
